@@ -57,6 +57,8 @@ def cases(tier, seed):
                                 continue
                             yield {'kind': 'mv', 'fn': 'fast_matvec', 'M': M, 'N': N, 'ra': ra, 'rx': rx, 'fam': fam, 'dt': 'f64', 'eps': eps, 'seed': sd, 'init': init}
     for cfg in c12._configs(2 if tier == 'quick' else 3):
+        if cfg['solver'] == 'bicgstab':
+            continue      # a Python-only local solver (the compiled solver has GMRES only); C12 covers it
         yield dict(cfg, kind='solve')
 
 
